@@ -1334,6 +1334,8 @@ void flatcc_json_printer_struct_as_nested_root(flatcc_json_printer_t *ctx,
     }
     buf = (const uoffset_t *)((size_t)buf + __flatbuffers_uoffset_read_from_pe(buf));
     bufsiz = __flatbuffers_uoffset_read_from_pe(buf);
+    /* Skip the length of the ubyte vector that wraps the nested buffer. */
+    ++buf;
     if (!accept_header(ctx, buf, bufsiz, fid)) {
         return;
     }
